@@ -11,12 +11,20 @@ RULE = ("seeded random circuits (built-in / custom factory gates under controlle
         "or by direct construction, MultiPhaseOperation, a few ResetOperations) and single gates (incl. power/exponential "
         "chains, replace_params) with sympy-expression parameters, bound with partial / total / superfluous / empty maps "
         "with numeric and symbolic values, plus a second map for step-wise binding; non-trivial: some expression parameter "
-        "mentions >= 2 symbols and the map binds at least one but not all of them; distinct = distinct canonical JSON")
+        "mentions >= 2 symbols and the map binds at least one but not all of them; distinct = distinct canonical JSON.  "
+        "Further kinds: `mixed` (circuits that mix numeric and symbolic gates before / after a partial binding; the circuit "
+        "matrix is evaluated along the symbolic, the mixed and the two numeric routes), `hist` (a history on ONE circuit "
+        "object and ONE map object: sibling maps that differ in one entry, the first map again, every list / matrix handed "
+        "out and the map edited in between, partial steps on the results), gate cases with the same history on one gate "
+        "object, `exotic` (bound variables of Sum / Product / Integral also as map keys and shadowing free symbols, other "
+        "real functions, sympy numbers, Python numbers of unusual types, symbols with assumptions, the same operation "
+        "object twice, one custom-gate name with two contents, very small values / values of unusual types, 9-14 symbols on 9-13 qubits)")
 TRUSTED = [
     "sympy: Expr.subs(dict) on a map whose values do not mention its keys is simultaneous substitution; "
     "Matrix.subs(simultaneous=True) is simultaneous substitution entry by entry; automatic canonicalisation "
     "(Add/Mul/Pow flattening, numeric folding, cancellation) preserves the value of an expression",
-    "sympy: Expr.free_symbols is the set of Symbol atoms of the (canonical) expression tree",
+    "sympy: Expr.free_symbols is the set of Symbol atoms of the (canonical) expression tree that are not bound by a "
+    "Sum / Product / Integral / Subs (the oracle finds them by its own binder-aware walk); subs() does not touch bound variables",
     "built-in matrix factories are arithmetic in their arguments, so factory(*params) evaluated at an assignment equals "
     "factory(*evaluated params) (model: Sem.builtin is a function of the evaluated parameters; exercised by the oracle)",
     "wrapper laws assumed in gateMatrix_bind (Laws): diag(eye, diag(eye, M)) = diag(eye', M); adjoint is an involution; "
@@ -29,7 +37,8 @@ TRUSTED = [
 ]
 ASSUMPTIONS = [
     "symbol maps whose values do not mention the map's own keys (chained maps make sequential subs order dependent)",
-    "a symbol is identified by its name (no two distinct symbols with the same name but different assumptions)",
+    "a symbol is identified by its name within one case (symbols may carry the assumption real=True, but no two distinct "
+    "symbols with the same name and different assumptions occur together); values given to real symbols are real",
     "is_hermitian flags of factory gates are truthful (HermOK); custom definitions mention only ordered symbols and are "
     "called with at least as many params as they order (CustomOK)",
     "numeric values are real rationals / floats (MultiPhaseOperation rejects non-real complex numbers: not modelled)",
@@ -37,7 +46,8 @@ ASSUMPTIONS = [
 
 TOL = 1e-9
 SYMS = ["x", "y", "z", "t", "u", "w", "theta", "gamma", "phi", "a0", "a1", "B", "Z0", "x_1"]
-FUNCS = {"sin", "cos", "exp", "sqrt"}
+FUNCS = {"sin", "cos", "exp", "sqrt", "Sum", "Product", "Integral", "tan", "log", "Abs", "atan", "sinh", "Max", "Piecewise",
+         "sign", "floor", "pi", "E", "I", "True", "GoldenRatio"}
 NONPARAM = ["X", "Y", "Z", "H", "I", "S", "SX", "T", "CNOT", "CZ", "SWAP", "ISWAP"]
 PARAM1 = ["RX", "RY", "RZ", "RH", "PHASE", "GPi", "GPi2", "CPHASE", "XX", "YY", "ZZ", "XY", "Delay"]
 NQ = {"CNOT": 2, "CZ": 2, "SWAP": 2, "ISWAP": 2, "CPHASE": 2, "XX": 2, "YY": 2, "ZZ": 2, "XY": 2, "MS": 2}
@@ -56,16 +66,34 @@ class Unsupported(Exception):
 
 
 # ---------------------------------------------------------------- building the real objects from a case
+_LIB = []
+
+
 def _lib():
-    common.use_repo()
-    import sympy
-    from orquestra.quantum import circuits as C
-    from orquestra.quantum.circuits import _gates
-    return sympy, C, _gates
+    if not _LIB:
+        common.use_repo()
+        import sympy
+        from orquestra.quantum import circuits as C
+        from orquestra.quantum.circuits import _gates
+        _LIB.append((sympy, C, _gates))
+    return _LIB[0]
+
+
+_ASSUME = {}   # per-case: symbol name -> sympy assumption keyword ("real"); set by run_impl only
+_DEFS = {}     # per-case: custom gate definitions shared by all gates of the case (one long-lived object per definition)
+
+
+def _sym(name):
+    """the case's symbol of that name (plain unless the case declares an assumption for it)"""
+    sympy = _lib()[0]
+    a = _ASSUME.get(name)
+    return sympy.Symbol(name, **{a: True}) if a else sympy.Symbol(name)
 
 
 def _locals(sympy):
-    return {n: sympy.Symbol(n) for n in SYMS}
+    d = {n: _sym(n) for n in SYMS}
+    d.update({n: _sym(n) for n in _ASSUME})
+    return d
 
 
 def _expr(s):
@@ -77,7 +105,31 @@ def _param(ps):
     if "py" in ps:
         f = Fraction(ps["py"])
         return int(f) if f.denominator == 1 else float(f)
+    if "num" in ps:
+        # Python numbers of an unusual type (all are numbers.Number: the Number overload of sub_symbols)
+        t, v = ps["num"]
+        if t == "fraction":
+            return Fraction(v)
+        if t == "complex":
+            return complex(float(Fraction(v)), 0.0)
+        if t == "npfloat":
+            import numpy as np
+            return np.float64(float(Fraction(v)))
+        if t == "npint":
+            import numpy as np
+            return np.int64(int(v))
+        if t == "bigint":
+            return int(v)
+        if t == "float":
+            return float(v)
+        raise AssertionError(t)
     return _expr(ps["e"])
+
+
+def _custom_spec(gs):
+    """(matrix rows, ordering) of a custom gate spec: inline definition or the table"""
+    d = gs if "matrix" in gs else CUSTOM[gs["name"]]
+    return d["matrix"], d["ord"]
 
 
 def _gate(gs):
@@ -88,10 +140,12 @@ def _gate(gs):
         ps = [_param(p) for p in gs["params"]]
         return ref(*ps) if callable(ref) and not isinstance(ref, G.MatrixFactoryGate) else ref
     if k == "custom":
-        d = CUSTOM[gs["name"]] if "matrix" not in gs else gs
-        mat = sympy.Matrix([[_expr(e) for e in row] for row in d["matrix"]])
-        definition = C.CustomGateDefinition(gs["name"], mat, tuple(sympy.Symbol(n) for n in d["ord"]))
-        return definition(*[_param(p) for p in gs["params"]])
+        rows, ordering = _custom_spec(gs)
+        key = common.canon([gs["name"], rows, ordering])
+        if key not in _DEFS:
+            mat = sympy.Matrix([[_expr(e) for e in row] for row in rows])
+            _DEFS[key] = C.CustomGateDefinition(gs["name"], mat, tuple(_sym(n) for n in ordering))
+        return _DEFS[key](*[_param(p) for p in gs["params"]])
     inner = _gate(gs["g"])
     if k == "ctrl":
         return G.ControlledGate(inner, gs["n"]) if gs.get("raw") else inner.controlled(gs["n"])
@@ -116,13 +170,16 @@ def _op(os_):
 
 
 def _map(ms):
-    sympy, _, _ = _lib()
-    return {sympy.Symbol(k): _param(v) for k, v in ms}
+    return {_sym(k): _param(v) for k, v in ms}
 
 
 def _circuit(c):
     _, C, _ = _lib()
-    return C.Circuit([_op(o) for o in c["ops"]], n_qubits=c.get("n"))
+    ops = []
+    for o in c["ops"]:
+        # "same_as": the very same operation object once more (shared, not merely equal)
+        ops.append(ops[o["same_as"]] if "same_as" in o else _op(o))
+    return C.Circuit(ops, n_qubits=c.get("n"))
 
 
 # ---------------------------------------------------------------- real objects -> model JSON
@@ -175,7 +232,7 @@ def gate_json(g, tolerant=False):
             if not tolerant:
                 raise
             sympy = _lib()[0]
-            return {"unsupported": isinstance(p, sympy.Expr), "syms": _sym_names(p)}
+            return {"unsupported": isinstance(p, sympy.Expr), "syms": _occ([p])}
 
     if isinstance(g, G.MatrixFactoryGate):
         custom = None
@@ -208,7 +265,7 @@ def op_json(o, tolerant=False):
             except Unsupported:
                 if not tolerant:
                     raise
-                ps.append({"unsupported": isinstance(p, _lib()[0].Expr), "syms": _sym_names(p)})
+                ps.append({"unsupported": isinstance(p, _lib()[0].Expr), "syms": _occ([p])})
         return {"op": "mp", "params": ps}
     if isinstance(o, C.ResetOperation):
         return {"op": "reset", "q": int(o.qubit_indices[0])}
@@ -301,38 +358,79 @@ def impl_value(p, pt):
         if isinstance(p, (int, float)) and not isinstance(p, bool):
             return (Fraction(p), complex(p))
         return (None, complex(p))
-    r = p.subs(pt)
+    r = _doit(p.subs(pt))
     if r.is_Rational:
         fr = Fraction(int(r.p), int(r.q))
         return (fr, complex(float(fr)))
     try:
         v = complex(r.evalf())
     except (TypeError, ValueError):
-        return (None, None)
+        try:
+            v = complex(r.doit().evalf())   # Sum / Integral … with every free symbol given a value
+        except (TypeError, ValueError):
+            return (None, None)
     if not (math.isfinite(v.real) and math.isfinite(v.imag)):
         return (None, None)
     return (None, v)
 
 
-def _sym_names(p):
-    """symbols occurring in a parameter, by an explicit walk over the expression tree"""
+def _dep_names(e):
+    """names of the symbols the expression depends on, by an explicit walk over the expression tree that knows the
+    variable-binding constructs: in Sum / Product / Integral (f, (v, a, b)) the variable v is bound in f (not in a, b),
+    in Subs(f, v, p) the variables v are bound in f.  Any other construct that declares bound symbols is unsupported."""
     sympy, _, _ = _lib()
-    if not isinstance(p, sympy.Expr):
+    from sympy.concrete.expr_with_limits import ExprWithLimits
+    if isinstance(e, sympy.Symbol):
+        if isinstance(e, sympy.Dummy):
+            raise Unsupported("Dummy symbol")
+        return {e.name}
+    if isinstance(e, ExprWithLimits):
+        s = set(_dep_names(e.function))
+        for lim in e.limits:            # innermost first
+            if len(lim) == 1:           # indefinite: the variable stays free
+                s |= _dep_names(lim[0])
+                continue
+            s.discard(lim[0].name)
+            for bnd in lim[1:]:
+                s |= _dep_names(bnd)
+        return s
+    if isinstance(e, sympy.Subs):
+        s = set(_dep_names(e.expr)) - {v.name for v in e.variables}
+        for pnt in e.point:
+            s |= _dep_names(pnt)
+        return s
+    if getattr(e, "bound_symbols", None):
+        raise Unsupported("binder " + type(e).__name__)
+    s = set()
+    for a in e.args:
+        s |= _dep_names(a)
+    return s
+
+
+def _sym_names(p):
+    """symbols a parameter depends on (sorted names); Python numbers depend on none"""
+    sympy, _, _ = _lib()
+    if not isinstance(p, sympy.Basic):
         return []
-    out, todo = [], [p]
-    while todo:
-        e = todo.pop()
-        if isinstance(e, sympy.Symbol):
-            out.append(e.name)
-        todo.extend(e.args)
-    return sorted(set(out))
+    return sorted(_dep_names(p))
+
+
+def _doit(e):
+    """Sum / Product / Integral whose free symbols all have values: the closed form (evalf would integrate numerically)"""
+    sympy, _, _ = _lib()
+    if e.has(sympy.Sum, sympy.Product, sympy.Integral):
+        try:
+            return e.doit()
+        except (TypeError, ValueError, NotImplementedError):
+            return e
+    return e
 
 
 def _mat_num(M, pt):
     """numeric matrix (list of complex) of a sympy / numpy matrix at the point"""
     sympy, _, _ = _lib()
     if isinstance(M, sympy.MatrixBase):
-        M = M.subs(pt)
+        M = _doit(M.subs(pt))
         return [complex(M[i, j].evalf()) for i in range(M.shape[0]) for j in range(M.shape[1])]
     return [complex(v) for row in M.tolist() for v in row]
 
@@ -389,14 +487,25 @@ def _try(f):
 # ---------------------------------------------------------------- observing the implementation
 def _point(c):
     sympy = _lib()[0]
-    return [{sympy.Symbol(k): sympy.Rational(Fraction(v).numerator, Fraction(v).denominator) for k, v in pt}
+    return [{_sym(k): sympy.Rational(Fraction(v).numerator, Fraction(v).denominator) for k, v in pt}
             for pt in c.get("pts", [])]
+
+
+def _occ(params):
+    """sorted names of the symbols the parameters depend on (None when a parameter is outside the walk's grammar)"""
+    try:
+        return sorted({n for p in params for n in _sym_names(p)})
+    except Unsupported:
+        return None
 
 
 def _observe_ops(ops, pts, want_ast=True):
     """per-operation observables of a list of real operations"""
+    _, _, G = _lib()
     out = {"free_ops": [[s.name for s in o.free_symbols] for o in ops],
-           "occ_ops": [sorted({n for p in o.params for n in _sym_names(p)}) for o in ops],
+           # the same question asked of the gate itself (GateOperation.free_symbols and Gate.free_symbols are two APIs)
+           "free_gates": [[s.name for s in o.gate.free_symbols] if isinstance(o, G.GateOperation) else None for o in ops],
+           "occ_ops": [_occ(o.params) for o in ops],
            "py": [[not isinstance(p, _lib()[0].Expr) for p in o.params] for o in ops],
            "qubits": [[int(q) for q in o.qubit_indices] for o in ops],
            "strs": [[str(p) for p in o.params] for o in ops]}
@@ -420,75 +529,236 @@ def _observe_ops(ops, pts, want_ast=True):
     return out
 
 
-def _observe_circuit(c, pts):
-    out = _observe_ops(list(c.operations), pts)
+def _observe_circuit(c, pts, want_ast=True):
+    out = _observe_ops(list(c.operations), pts, want_ast)
     out["free"] = [s.name for s in c.free_symbols]
     out["n"] = int(c.n_qubits)
     return out
 
 
+def _light(c):
+    """the cheap observables of a circuit (used to see that an object did not change behind our back)"""
+    ops = list(c.operations)
+    return {"free": [s.name for s in c.free_symbols], "free_ops": [[s.name for s in o.free_symbols] for o in ops],
+            "strs": [[str(p) for p in o.params] for o in ops], "n": int(c.n_qubits),
+            "qubits": [[int(q) for q in o.qubit_indices] for o in ops], "types": [type(o).__name__ for o in ops]}
+
+
 def _subs_after(p, m):
     sympy = _lib()[0]
-    return p.subs(m, simultaneous=True) if isinstance(p, sympy.Expr) else p
+    return p.subs(m, simultaneous=True) if isinstance(p, sympy.Basic) else p
+
+
+def _innermost(g):
+    while hasattr(g, "wrapped_gate"):
+        g = g.wrapped_gate
+    return g
+
+
+def _is_custom(g):
+    _, _, G = _lib()
+    g = _innermost(g)
+    return isinstance(g, G.MatrixFactoryGate) and isinstance(g.matrix_factory, G.CustomGateMatrixFactory)
+
+
+def _base_spec(gs):
+    while "g" in gs:
+        gs = gs["g"]
+    return gs
+
+
+def _custom_want(gs):
+    """the meaning of a custom gate call, computed from the case's own definition (not from the gate object): the
+    definition's matrix with the i-th ordered symbol replaced by the i-th argument, simultaneously"""
+    sympy = _lib()[0]
+    rows, ordering = _custom_spec(gs)
+    return sympy.Matrix([[_expr(e) for e in row] for row in rows]).subs(
+        {_sym(o): a for o, a in zip(ordering, [_param(p) for p in gs["params"]])}, simultaneous=True)
+
+
+def _total_map(m, pt):
+    """m extended to a total map: keys of m get their value evaluated at the point, every other symbol the point's"""
+    sympy = _lib()[0]
+    tot = dict(pt)
+    for k, v in m.items():
+        tot[k] = v.subs(pt) if isinstance(v, sympy.Basic) else v
+    return tot
+
+
+def _unitary_checks(circ, bound, m, pt):
+    """the circuit matrix at the point, obtained along every route the property equates:
+       sym   evaluate symbolically, substitute the map, then the point
+       bind  bind the map, evaluate, then substitute the point            (partial binding: mixed numeric/symbolic)
+       total bind the map and the point at once, evaluate                 (total binding: numeric)
+       step  bind the map, then bind the point, evaluate                  (step-wise total binding: numeric)
+    returned: relative max-entry differences to the first route (None = undefined at the point)"""
+    sympy = _lib()[0]
+    out = {}
+    try:
+        U = circ.to_unitary()
+        Ua = U.subs(m, simultaneous=True) if isinstance(U, sympy.MatrixBase) else U
+        ref = _mat_num(Ua, pt)
+    except (TypeError, ValueError):
+        return {"bind": None}
+    out["symbolic_route"] = isinstance(U, sympy.MatrixBase)
+    tot = _total_map(m, pt)
+    for key, f in (("bind", lambda: bound.to_unitary()), ("total", lambda: circ.bind(tot).to_unitary()),
+                   ("step", lambda: bound.bind(dict(pt)).to_unitary())):
+        try:
+            out[key] = _mdiff(ref, _mat_num(f(), pt))
+        except (TypeError, ValueError):
+            out[key] = None
+    return out
+
+
+def _observe_bound(c, circ, ops, m, bound, pts, out, unitary):
+    """everything the oracle needs about `bound` = circ.bind(m) (m: the values that were bound)"""
+    sympy, C, G = _lib()
+    ob = _observe_circuit(bound, pts)
+    bops = list(bound.operations)
+    ob["same_type"] = [type(a) is type(b) for a, b in zip(ops, bops)] if len(ops) == len(bops) else None
+    # S1: the same values substituted afterwards
+    pt = pts[0] if pts else {}
+    pd = []
+    for o, b in zip(ops, bops):
+        row = []
+        for p, q in zip(o.params, b.params):
+            a1, a2 = impl_value(_subs_after(p, m), pt)[1], impl_value(q, pt)[1]
+            row.append(None if (a1 is None or a2 is None) else abs(a1 - a2) / max(1.0, abs(a1)))
+        pd.append(row if len(o.params) == len(b.params) else "len")
+    ob["param_diff"] = pd
+    md, cd = [], []
+    for k, (o, b, okc) in enumerate(zip(ops, bops, out["custom_ok"])):
+        d = dc = None
+        if isinstance(o, G.GateOperation) and isinstance(b, G.GateOperation) and okc and c.get("matrix", True):
+            try:
+                A = _mat_num(o.gate.matrix.subs(m, simultaneous=True), pt)
+                B = _mat_num(b.gate.matrix, pt)
+                d = _mdiff(A, B)
+            except (TypeError, ValueError):
+                d = None  # undefined at the point (1/0 …)
+            spec = _base_spec(c["ops"][k]["g"]) if k < len(c["ops"]) and c["ops"][k].get("op") == "gate" else None
+            if spec is not None and spec["k"] == "custom" and _is_custom(b.gate) and pts:
+                try:
+                    want = _custom_want(spec).subs(m, simultaneous=True)
+                    dc = _mdiff(_mat_num(want, pt), _mat_num(_innermost(b.gate).matrix, pt))
+                except (TypeError, ValueError):
+                    dc = None
+        md.append(d)
+        cd.append(dc)
+    ob["matrix_diff"] = md
+    ob["custom_diff"] = cd
+    if unitary and all(k == "gate" for k in out["kinds"]) and ops and all(out["custom_ok"]) and len(ops) == len(bops):
+        u = _unitary_checks(circ, bound, m, pt)
+        ob["unitary"] = u
+        ob["unitary_diff"] = u.get("bind")
+    # S3: what must stay literally untouched
+    keys = {k.name for k in m}
+    unt = []
+    for o, b in zip(ops, bops):
+        for p, q in zip(o.params, b.params):
+            names = _occ([p])
+            if names is not None and not (set(names) & keys):
+                unt.append(bool(type(p) is type(q) and p == q))
+    ob["untouched_ok"] = unt
+    # the other two binding APIs on the same operations: GateOperation.bind / Gate.bind (values of the parameters)
+    paths = []
+    for o, b in zip(ops, bops):
+        alts = [("op.bind", lambda o=o: o.bind(m).params)]
+        if isinstance(o, G.GateOperation):
+            alts.append(("gate.bind", lambda o=o: o.gate.bind(m).params))
+        for name, f in alts:
+            ps, err = _try(f)
+            if err:
+                paths.append(f"{name} raised {err}")
+                continue
+            if len(ps) != len(b.params):
+                paths.append(f"{name} gives {len(ps)} parameters, Circuit.bind {len(b.params)}")
+                continue
+            for p, q in zip(ps, b.params):
+                if type(p) is type(q) and p == q:
+                    continue
+                a1, a2 = impl_value(p, pt)[1], impl_value(q, pt)[1]
+                if a1 is not None and a2 is not None and not close(a1, a2):
+                    paths.append(f"{name} gives {p}, Circuit.bind gives {q}")
+    ob["paths"] = paths
+    return ob
+
+
+def _bind_and_observe(c, circ, ops, m, pts, out, unitary=False):
+    bound, err = _try(lambda: circ.bind(m))
+    if err:
+        return {"err": err}, None
+    return _observe_bound(c, circ, ops, dict(m), bound, pts, out, unitary), bound
+
+
+def _poison(circ, bound, m_live):
+    """edit everything a caller legitimately can after circ.bind(m_live) returned `bound`: the lists / matrices that
+    were handed out, and the map that was passed in.  Returns the list of edits that could be made."""
+    sympy, C, G = _lib()
+    done = []
+    for who, obj in (("orig", circ), ("bound", bound)):
+        fs = obj.free_symbols
+        if isinstance(fs, list):
+            fs.append(sympy.Symbol("poison"))
+            fs.reverse()
+            done.append(who + ".free_symbols")
+        for o in obj.operations:
+            fo = o.free_symbols
+            if isinstance(fo, list):
+                fo.insert(0, sympy.Symbol("poison"))
+            if isinstance(o, G.GateOperation) and not _has_powexp(o.gate) and o.gate.name != "U3":
+                try:
+                    M = o.gate.matrix
+                    M[0, 0] = 12345
+                    done.append(who + ".matrix")
+                except (TypeError, ValueError):
+                    pass
+    for k in list(m_live):
+        m_live[k] = 777
+    m_live[sympy.Symbol("poison")] = 1
+    done.append("map")
+    return sorted(set(done))
+
+
+def _prep(c):
+    global _ASSUME
+    _ASSUME = dict(c.get("assume") or {})
+    _DEFS.clear()
 
 
 def run_impl(c):
+    _prep(c)
+    try:
+        pts = _point(c)
+        if c["kind"] == "gate":
+            return _run_gate(c, pts)
+        if c["kind"] == "hist":
+            return _run_hist(c, pts)
+        return _run_circuit(c, pts)
+    finally:
+        _ASSUME.clear()
+        _DEFS.clear()
+
+
+def _circuit_head(c, pts):
     sympy, C, G = _lib()
-    pts = _point(c)
-    if c["kind"] == "gate":
-        return _run_gate(c, pts)
     circ = _circuit(c)
-    m = _map(c["map"])
     out = {"before": _observe_circuit(circ, pts)}
     ops = list(circ.operations)
     out["kinds"] = ["reset" if isinstance(o, C.ResetOperation) else "mp" if isinstance(o, C.MultiPhaseOperation)
                     else ("powexp" if _has_powexp(o.gate) else "gate") for o in ops]
     out["custom_ok"] = [(not isinstance(o, G.GateOperation)) or _custom_wellformed(o.gate) for o in ops]
-    bound, err = _try(lambda: circ.bind(m))
-    if err:
-        out["bound"] = {"err": err}
-    else:
-        ob = _observe_circuit(bound, pts)
+    return circ, ops, out
+
+
+def _run_circuit(c, pts):
+    sympy, C, G = _lib()
+    circ, ops, out = _circuit_head(c, pts)
+    m = _map(c["map"])
+    out["bound"], bound = _bind_and_observe(c, circ, ops, m, pts, out, unitary=c.get("unitary"))
+    if bound is not None:
         bops = list(bound.operations)
-        ob["same_type"] = [type(a) is type(b) for a, b in zip(ops, bops)] if len(ops) == len(bops) else None
-        # S1: the same values substituted afterwards
-        pt = pts[0] if pts else {}
-        pd = []
-        for o, b in zip(ops, bops):
-            row = []
-            for p, q in zip(o.params, b.params):
-                a1, a2 = impl_value(_subs_after(p, m), pt)[1], impl_value(q, pt)[1]
-                row.append(None if (a1 is None or a2 is None) else abs(a1 - a2) / max(1.0, abs(a1)))
-            pd.append(row if len(o.params) == len(b.params) else "len")
-        ob["param_diff"] = pd
-        md = []
-        for o, b, okc in zip(ops, bops, out["custom_ok"]):
-            if isinstance(o, G.GateOperation) and okc and c.get("matrix", True):
-                try:
-                    A = _mat_num(o.gate.matrix.subs(m, simultaneous=True), pt)
-                    B = _mat_num(b.gate.matrix, pt)
-                    md.append(_mdiff(A, B))
-                except (TypeError, ValueError):
-                    md.append(None)  # undefined at the point (1/0 …)
-            else:
-                md.append(None)
-        ob["matrix_diff"] = md
-        if c.get("unitary") and all(k == "gate" for k in out["kinds"]) and ops and all(out["custom_ok"]):
-            try:
-                U = circ.to_unitary()
-                Ua = U.subs(m, simultaneous=True) if isinstance(U, sympy.MatrixBase) else U
-                ob["unitary_diff"] = _mdiff(_mat_num(Ua, pt), _mat_num(bound.to_unitary(), pt))
-            except (TypeError, ValueError):
-                ob["unitary_diff"] = None
-        # S3: what must stay literally untouched
-        keys = {k.name for k in m}
-        unt = []
-        for o, b in zip(ops, bops):
-            for p, q in zip(o.params, b.params):
-                if not isinstance(p, sympy.Expr) or not (set(_sym_names(p)) & keys):
-                    unt.append(bool(type(p) is type(q) and p == q))
-        ob["untouched_ok"] = unt
-        out["bound"] = ob
         # S4: superfluous entries change nothing
         if c.get("extra"):
             m2 = dict(m)
@@ -505,7 +775,89 @@ def run_impl(c):
             on, e2 = _try(lambda: circ.bind(merged))
             out["step"] = {"err": e1} if e1 else _observe_circuit(st, pts)
             out["once"] = {"err": e2} if e2 else _observe_circuit(on, pts)
+    # the circuit that was bound still answers as before
+    out["after"] = _light(circ)
     return out
+
+
+def _run_hist(c, pts):
+    """a HISTORY on one long-lived circuit object: it is bound with several maps one after the other (siblings that
+    differ in one entry, and the first map once more); optionally everything handed out is edited in between; optionally
+    the maps are also applied as partial steps on the results (chain)."""
+    sympy, C, G = _lib()
+    circ, ops, out = _circuit_head(c, pts)
+    out["binds"], out["poisoned"] = [], []
+    out["chain"] = []
+    m_live = {}     # ONE long-lived dict object, edited between the calls (the usual parameter-update loop)
+    for i, ms in enumerate(c["maps"]):
+        m = _map(ms)
+        m_live.clear()
+        m_live.update(m)
+        bound, err = _try(lambda: circ.bind(m_live))
+        if err:
+            out["binds"].append({"err": err})
+            continue
+        ob = _observe_bound(c, circ, ops, m, bound, pts, out, unitary=bool(c.get("unitary")) and i == len(c["maps"]) - 1)
+        if c.get("poison"):
+            out["poisoned"].append(_poison(circ, bound, m_live))
+            # asked again after the edits: the bound circuit must still be the circuit bound with the ORIGINAL values
+            ob["again"] = _observe_bound(c, circ, ops, m, bound, pts, out, unitary=False)
+            ob["orig_again"] = _light(circ)
+        out["binds"].append(ob)
+    if c.get("chain"):
+        # partial steps on the results; the free symbols are read between the steps
+        merged = {}
+        st = circ
+        for ms in c["chain"]:
+            m = _map(ms)
+            merged.update(m)
+            st, err = _try(lambda: st.bind(m))
+            if err:
+                out["chain"].append({"err": err})
+                break
+            out["chain"].append(_observe_circuit(st, pts, want_ast=False))
+        on, e2 = _try(lambda: circ.bind(merged))
+        out["chain_once"] = {"err": e2} if e2 else _observe_circuit(on, pts, want_ast=False)
+    out["after"] = _light(circ)
+    return out
+
+
+def _obs_gate(h, pts):
+    sympy, C, G = _lib()
+    o = _observe_ops([h(*range(h.num_qubits))], pts, want_ast=False)
+    r = {"free": [s.name for s in h.free_symbols], "free_op": o["free_ops"][0], "occ": o["occ_ops"][0], "py": o["py"][0],
+         "vals": [v[0] for v in o["vals"]], "strs": o["strs"][0], "g_json": gate_json(h, tolerant=True)}
+    inner = _innermost(h)
+    if _is_custom(h):
+        M = inner.matrix
+        ev_ = []
+        for pt in pts:
+            ev_.append([[(lambda t: {"x": None if t[0] is None else _fr(t[0]),
+                                     "v": None if t[1] is None else [t[1].real, t[1].imag]})(impl_value(M[i, j], pt))
+                         for j in range(M.shape[1])] for i in range(M.shape[0])])
+        r["entry_vals"] = ev_
+    return r
+
+
+def _gate_bind_obs(c, g, m, pts, out):
+    """g.bind(m) observed (m: the values that were bound)"""
+    b, err = _try(lambda: g.bind(m))
+    if err:
+        return {"err": err}, None
+    ob = _obs_gate(b, pts)
+    pt = pts[0] if pts else {}
+    if not out["powexp"] and out["custom_ok"]:
+        pd = []
+        for p, q in zip(g.params, b.params):
+            a1, a2 = impl_value(_subs_after(p, m), pt)[1], impl_value(q, pt)[1]
+            pd.append(None if (a1 is None or a2 is None) else abs(a1 - a2) / max(1.0, abs(a1)))
+        ob["param_diff"] = pd if len(g.params) == len(b.params) else "len"
+        if c.get("matrix", True):
+            try:
+                ob["matrix_diff"] = _mdiff(_mat_num(g.matrix.subs(m, simultaneous=True), pt), _mat_num(b.matrix, pt))
+            except (TypeError, ValueError):
+                ob["matrix_diff"] = None
+    return ob, b
 
 
 def _run_gate(c, pts):
@@ -514,97 +866,122 @@ def _run_gate(c, pts):
     if cerr:
         return {"construct": cerr}
     m = _map(c["map"])
-    out = {"free": [s.name for s in g.free_symbols], "occ": sorted({n for p in g.params for n in _sym_names(p)}),
+    out = {"free": [s.name for s in g.free_symbols], "occ": _occ(g.params),
            "powexp": _has_powexp(g), "custom_ok": _custom_wellformed(g)}
     try:
         out["g_json"] = gate_json(g)
     except Unsupported as e:
         out["g_json"] = None
         out["unsupported"] = str(e)
-
-    def obs(h, matrix_from=None):
-        o = _observe_ops([h(*range(h.num_qubits))], pts, want_ast=False)
-        r = {"free": o["free_ops"][0], "occ": o["occ_ops"][0], "py": o["py"][0], "vals": [v[0] for v in o["vals"]],
-             "strs": o["strs"][0], "g_json": gate_json(h, tolerant=True)}
-        inner = h
-        while hasattr(inner, "wrapped_gate"):
-            inner = inner.wrapped_gate
-        if isinstance(inner, G.MatrixFactoryGate) and isinstance(inner.matrix_factory, G.CustomGateMatrixFactory):
-            M = inner.matrix
-            ev_ = []
-            for pt in pts:
-                ev_.append([[(lambda t: {"x": None if t[0] is None else _fr(t[0]),
-                                         "v": None if t[1] is None else [t[1].real, t[1].imag]})(impl_value(M[i, j], pt))
-                             for j in range(M.shape[1])] for i in range(M.shape[0])])
-            r["entry_vals"] = ev_
-        return r
-
-    # the meaning of a custom gate call: the definition's matrix with the i-th ordered symbol replaced by the
-    # i-th argument, simultaneously (computed here from the case's own definition, not from the gate object)
-    base = c["g"]
-    while "g" in base:
-        base = base["g"]
+    base = _base_spec(c["g"])
     if base["k"] == "custom" and out["custom_ok"] and pts:
-        d = CUSTOM[base["name"]]
-        want = sympy.Matrix([[_expr(e) for e in row] for row in d["matrix"]]).subs(
-            {sympy.Symbol(o): a for o, a in zip(d["ord"], [_param(p) for p in base["params"]])}, simultaneous=True)
-        inner = g
-        while hasattr(inner, "wrapped_gate"):
-            inner = inner.wrapped_gate
         try:
-            out["custom_diff"] = _mdiff(_mat_num(want, pts[0]), _mat_num(inner.matrix, pts[0]))
+            out["custom_diff"] = _mdiff(_mat_num(_custom_want(base), pts[0]), _mat_num(_innermost(g).matrix, pts[0]))
         except (TypeError, ValueError):
             out["custom_diff"] = None
-    b, err = _try(lambda: g.bind(m))
-    if err:
-        out["bound"] = {"err": err}
-    else:
-        ob = obs(b)
-        pt = pts[0] if pts else {}
-        if not out["powexp"] and out["custom_ok"] and c.get("matrix", True):
-            try:
-                ob["matrix_diff"] = _mdiff(_mat_num(g.matrix.subs(m, simultaneous=True), pt), _mat_num(b.matrix, pt))
-            except (TypeError, ValueError):
-                ob["matrix_diff"] = None
-        out["bound"] = ob
+    m_live = dict(m)   # one long-lived dict object for every bind of the case
+    out["bound"], b = _gate_bind_obs(c, g, m_live, pts, out)
+    # HISTORY on the same gate object: sibling maps, then the first map once more (after editing what was handed out)
+    if c.get("more_maps"):
+        out["more"] = []
+        for ms in list(c["more_maps"]) + [c["map"]]:
+            mm = _map(ms)
+            m_live.clear()
+            m_live.update(mm)
+            if b is not None:
+                fs = b.free_symbols
+                if isinstance(fs, list):
+                    fs.append(sympy.Symbol("poison"))
+                if not out["powexp"] and _base_spec(c["g"]).get("name") != "U3":
+                    try:
+                        M = b.matrix
+                        M[0, 0] = 12345
+                    except (TypeError, ValueError):
+                        pass
+            ob, b2 = _gate_bind_obs(c, g, m_live, pts, out)
+            for k in list(m_live):
+                m_live[k] = 777
+            if b2 is not None:
+                # … and asked again after the map that was passed in has been edited
+                ob["free_again"] = [s.name for s in b2.free_symbols]
+                ob["strs_again"] = [str(p) for p in b2.params]
+            out["more"].append(ob)
+        out["free_after"] = [s.name for s in g.free_symbols]
+        out["strs_after"] = [str(p) for p in g.params]
     if c.get("new_params") is not None:
         nps = tuple(_param(p) for p in c["new_params"])
         r, err = _try(lambda: g.replace_params(nps))
-        out["replaced"] = {"err": err} if err else obs(r)
+        out["replaced"] = {"err": err} if err else _obs_gate(r, pts)
+        if not err:
+            out["replaced"]["given"] = [str(p) for p in nps]
+            # GateOperation.replace_params is the same question asked of the operation
+            op = g(*range(g.num_qubits))
+            r2, err2 = _try(lambda: op.replace_params(nps))
+            out["replaced"]["op_strs"] = None if err2 else [str(p) for p in r2.params]
+            out["replaced"]["op_qubits_same"] = None if err2 else tuple(r2.qubit_indices) == tuple(op.qubit_indices)
     return out
 
 
 # ---------------------------------------------------------------- model requests and comparison
 def requests(c, out):
-    if not c.get("model", True) or "exc" in out:
+    if "exc" in out:
         return []
     try:
-        return _requests(c, out)
+        return [(op, payload) for _, op, payload in _plan(c, out)]
     except Unsupported:
         return []
 
 
-def _requests(c, out):
+def _mapj(ms):
+    return map_json(_map(ms))
+
+
+def _free_req(tag, o):
+    if o and "err" not in o and o.get("ops_json") is not None:
+        return [("free:" + tag, "free", {"ops": _patch(o["ops_json"])})]
+    return []
+
+
+def _plan(c, out):
+    """[(tag, driver op, payload)] – the model is asked about every bind of the case, each as a fresh computation
+    (the model is a pure function: a history on one object is a list of independent questions to it)"""
     pts = c.get("pts", [])
+    full = c.get("model", True)
+    plan = []
     if c["kind"] == "gate":
-        if out.get("construct") or out.get("g_json") is None:
+        if not full or out.get("construct") or out.get("g_json") is None:
             return []
-        req = {"g": out["g_json"], "map": map_json(_map(c["map"])), "points": pts}
+        req = {"g": out["g_json"], "map": _mapj(c["map"]), "points": pts}
         if c.get("new_params") is not None:
             req["new_params"] = [param_json(_param(p)) for p in c["new_params"]]
-        return [("gate", req)]
-    if out["before"].get("ops_json") is None or any(_unsup(o) for o in out["before"]["ops_json"]):
-        return []
-    req = {"ops": out["before"]["ops_json"], "n": c.get("n") or 0, "map": map_json(_map(c["map"])), "points": pts}
-    if c.get("map2") is not None and "bound" in out and "err" not in out["bound"]:
-        req["map2"] = map_json(_map(c["map2"]))
-    rs = [("circuit", req)]
+        plan.append(("main", "gate", req))
+        for i, ms in enumerate(list(c.get("more_maps") or []) + ([c["map"]] if c.get("more_maps") else [])):
+            plan.append((f"more:{i}", "gate", {"g": out["g_json"], "map": _mapj(ms), "points": pts}))
+        return plan
+    before = out["before"]
+    supported = full and before.get("ops_json") is not None and not any(_unsup(o) for o in before["ops_json"])
+    if not supported:
+        # parameters outside the model's grammar: the model still answers for the free-symbol mechanisms
+        plan += _free_req("before", before)
+    if c["kind"] == "hist":
+        for i, ms in enumerate(c["maps"]):
+            if supported:
+                plan.append((f"bind:{i}", "circuit", {"ops": before["ops_json"], "n": c.get("n") or 0, "map": _mapj(ms), "points": pts}))
+            b = out["binds"][i] if i < len(out["binds"]) else None
+            plan += _free_req(f"bind:{i}", b)
+            plan += _free_req(f"again:{i}", (b or {}).get("again"))
+        for k, st in enumerate(out.get("chain") or []):
+            plan += _free_req(f"chain:{k}", st)
+        return plan
+    if supported:
+        req = {"ops": before["ops_json"], "n": c.get("n") or 0, "map": _mapj(c["map"]), "points": pts}
+        if c.get("map2") is not None and "bound" in out and "err" not in out["bound"]:
+            req["map2"] = _mapj(c["map2"])
+        plan.append(("main", "circuit", req))
     # the free-symbol mechanisms once more, on the implementation's own bound parameter trees
     for key in ("bound", "step", "once"):
-        o = out.get(key)
-        if o and "err" not in o and o.get("ops_json") is not None:
-            rs.append(("free", {"ops": _patch(o["ops_json"])}))
-    return rs
+        plan += _free_req(key, out.get(key))
+    return plan
 
 
 def _unsup(j):
@@ -616,12 +993,14 @@ def _unsup(j):
 
 
 def _patch(j):
-    """parameters outside the model's grammar (pi, E, nan, …): for the `free` request only their symbols matter,
-    so they are replaced by the sum of the symbols found by an explicit walk"""
+    """parameters outside the model's grammar (pi, E, nan, Sum, …): for the `free` request only the symbols they depend
+    on matter, so they are replaced by the sum of the symbols found by the explicit (binder-aware) walk"""
     if isinstance(j, dict):
         if "unsupported" in j:
             if not j["unsupported"]:
                 return {"py": "0"}
+            if j.get("syms") is None:
+                raise Unsupported("symbols unknown")
             out = {"n": "0"}
             for name in j.get("syms", []):
                 out = {"add": [out, {"s": name}]}
@@ -693,12 +1072,51 @@ def compare(c, out, resp):
         if isinstance(r, dict) and "driver_error" in r:
             return "driver error: " + r["driver_error"]
     pts = c.get("pts", [])
-    r = resp[0]
+    plan = _plan(c, out)
+    if len(plan) != len(resp):
+        return f"internal: {len(plan)} requests planned, {len(resp)} answered"
+    for (tag, _, _), r in zip(plan, resp):
+        msg = _compare_one(c, out, tag, r, pts)
+        if msg:
+            return msg
+    return None
+
+
+def _free_target(out, tag):
+    key = tag.split(":")
+    if key[1] in ("before", "bound", "step", "once"):
+        return out[key[1]]
+    if key[1] == "bind":
+        return out["binds"][int(key[2])]
+    if key[1] == "again":
+        return out["binds"][int(key[2])]["again"]
+    if key[1] == "chain":
+        return out["chain"][int(key[2])]
+    raise AssertionError(tag)
+
+
+def _compare_one(c, out, tag, r, pts):
     if c["kind"] == "gate":
-        return _compare_gate(c, out, r, pts)
+        if tag == "main":
+            return _compare_gate(c, out, r, pts, ("bound", "replaced"), out)
+        i = int(tag.split(":")[1])
+        return _compare_gate(c, out, r, pts, ("bound",), {"bound": out["more"][i], "free": out["free"]}, what=f"bind #{i + 2} on the same gate: ")
+    if tag.startswith("free:"):
+        o = _free_target(out, tag)
+        if (r["free_ops"], r["free"]) != (o["free_ops"], o["free"]):
+            return (f"free symbols of the {tag[5:]} circuit: impl {o['free_ops']} / {o['free']}, "
+                    f"model on the same parameter trees {r['free_ops']} / {r['free']}")
+        return None
     b = out["before"]
     if (b["free_ops"], b["free"], b["n"]) != (r["free_ops"], r["free"], r["n"]):
         return f"before bind: impl free_ops {b['free_ops']} free {b['free']} n {b['n']}; model {r['free_ops']} {r['free']} {r['n']}"
+    if tag.startswith("bind:"):
+        i = int(tag.split(":")[1])
+        ib = out["binds"][i]
+        msg = _cmp_bound("bind", r["bound"], ib, pts)
+        if not msg and "again" in ib:
+            msg = _cmp_bound("bind", r["bound"], ib["again"], pts)
+        return msg and f"bind #{i + 1} on the same circuit object: {msg}"
     msg = _cmp_bound("bind", r["bound"], out["bound"], pts)
     if msg:
         return msg
@@ -710,26 +1128,21 @@ def compare(c, out, resp):
             msg = _cmp_bound(key, r[key], out[key], pts)
             if msg:
                 return msg
-    # the `free` requests, in the order they were issued
-    k = 1
-    for key in ("bound", "step", "once"):
-        o = out.get(key)
-        if o and "err" not in o and o.get("ops_json") is not None:
-            fr = resp[k]
-            k += 1
-            if (fr["free_ops"], fr["free"]) != (o["free_ops"], o["free"]):
-                return (f"free symbols of the {key} circuit: impl {o['free_ops']} / {o['free']}, "
-                        f"model on the same parameter trees {fr['free_ops']} / {fr['free']}")
     return None
 
 
-def _compare_gate(c, out, r, pts):
+def _compare_gate(c, out, r, pts, keys, obs, what=""):
+    msg = _compare_gate_(c, out, r, pts, keys, obs)
+    return msg and what + msg
+
+
+def _compare_gate_(c, out, r, pts, keys, obs):
     if out["free"] != r["free"]:
         return f"gate free symbols: impl {out['free']} model {r['free']}"
-    for key in ("bound", "replaced"):
-        if key not in out:
+    for key in keys:
+        if key not in obs:
             continue
-        ib, mb = out[key], r[key]
+        ib, mb = obs[key], r[key]
         if isinstance(mb, str) or "err" in ib:
             if mb != ib.get("err"):
                 return f"{key}: impl {ib.get('err', 'returned a gate')} model {mb if isinstance(mb, str) else 'returned a gate'}"
@@ -744,6 +1157,9 @@ def _compare_gate(c, out, r, pts):
             return f"{key}: impl free {ib['free']} model {mb['free']}"
         if key == "replaced" and ib["free"] != mb["free"]:
             return f"replaced: impl free {ib['free']} model {mb['free']}"
+        if key == "replaced" and (ib.get("op_strs") != ib["strs"] or not ib.get("op_qubits_same")):
+            return (f"replaced: GateOperation.replace_params gives parameters {ib.get('op_strs')} (qubits kept: "
+                    f"{ib.get('op_qubits_same')}), Gate.replace_params {ib['strs']}")
         if "entry_vals" in ib:
             if "entry_vals" not in mb:
                 return f"{key}: implementation has a custom matrix, model has none"
@@ -773,24 +1189,81 @@ def _first_appearance(lists):
 
 
 def _in_domain(c):
-    keys = {k for k, _ in c["map"]} | {k for k, _ in (c.get("map2") or [])} | {k for k, _ in (c.get("extra") or [])}
-    for _, v in list(c["map"]) + list(c.get("map2") or []) + list(c.get("extra") or []):
-        if "e" in v and set(_idents(v["e"])) & keys:
-            return False
+    maps = [c.get("map") or [], c.get("map2") or [], c.get("extra") or []] + list(c.get("maps") or []) \
+        + list(c.get("chain") or []) + list(c.get("more_maps") or [])
+    keys = {k for m in maps for k, _ in m}
+    for m in maps:
+        for _, v in m:
+            if "e" in v and set(_idents(v["e"])) & keys:
+                return False
     return True
 
 
 def _check_free(what, o):
     """S5/S6 on one observed circuit"""
     for a, (rep, occ) in enumerate(zip(o["free_ops"], o["occ_ops"])):
-        if rep != sorted(set(occ)):
-            return ("free-symbols-op", f"{what}: operation {a} reports free symbols {rep}, its parameters {o['strs'][a]} mention {occ}")
+        if occ is not None and rep != sorted(set(occ)):
+            return ("free-symbols-op", f"{what}: operation {a} reports free symbols {rep}, its parameters {o['strs'][a]} depend on {occ}")
+        fg = (o.get("free_gates") or [None] * (a + 1))[a]
+        if occ is not None and fg is not None and fg != sorted(set(occ)):
+            return ("free-symbols-op", f"{what}: the gate of operation {a} reports free symbols {fg}, its parameters {o['strs'][a]} depend on {occ}")
     want = _first_appearance(o["free_ops"])
     if o["free"] != want:
         return ("free-symbols-order", f"{what}: circuit reports {o['free']}, first-appearance order of the operations' symbols is {want}")
+    if any(occ is None for occ in o["occ_ops"]):
+        return None
     if (len(o["free"]) == 0) != all(len(x) == 0 for x in o["occ_ops"]):
-        return ("free-symbols-empty", f"{what}: circuit free symbols {o['free']} but parameters mention {o['occ_ops']}")
+        return ("free-symbols-empty", f"{what}: circuit free symbols {o['free']} but parameters depend on {o['occ_ops']}")
     return None
+
+
+def _check_same(what, before, now):
+    """an object that was not rebound still answers as before (free symbols, parameters, width, qubits)"""
+    for key in ("free", "free_ops", "strs", "n", "qubits"):
+        if before[key] != now[key]:
+            return ("history-changes-original", f"{what}: {key} was {before[key]}, is now {now[key]}")
+    return None
+
+
+def _check_bound(what, c, out, b, ms):
+    """every sentence about ONE bind outcome b = observation of circ.bind(ms)"""
+    kinds = out["kinds"]
+    if "powexp" in kinds:
+        # the first exception wins; nothing before a power/exponential gate may raise, so it is the refusal
+        if b.get("err") != "err:notimpl":
+            return ("powexp-bind-not-refused", f"{what}: a power/exponential gate was bound: outcome {b.get('err', 'a circuit')} instead of NotImplementedError")
+        return None
+    if "err" in b:
+        if "reset" in kinds:
+            # regression of the defect fixed by ddf37fe (dataclasses.replace called ResetOperation(params=...))
+            return ("reset-bind-typeerror" if b["err"] == "err:type" else "reset-bind-raises",
+                    f"{what}: binding a circuit containing a ResetOperation raised {b['err']}; non-gate operations must bind like gates "
+                    f"(ResetOperation has no parameters, so the bound operation is a reset of the same qubit)")
+        return ("bind-raises", f"{what}: bind raised {b['err']} on a circuit of bindable operations")
+    if b["n"] != out["before"]["n"] or b["qubits"] != out["before"]["qubits"] or b["same_type"] is None or not all(b["same_type"]):
+        return ("bind-shape", f"{what}: bound circuit has width {b['n']} / qubits {b['qubits']}, original {out['before']['n']} / {out['before']['qubits']}")
+    for a, row in enumerate(b["param_diff"]):
+        if row == "len" or any(d is not None and d > TOL for d in row):
+            return ("bind-param-value", f"{what}: operation {a}: bound parameters {b['strs'][a]} differ from substituting {ms} afterwards (rel. diff {row})")
+    for a, d in enumerate(b["matrix_diff"]):
+        if d is not None and not d <= 1e-8:
+            return ("bind-matrix", f"{what}: operation {a}: matrix of the bound gate differs from the substituted symbolic matrix by {d}")
+    for a, d in enumerate(b.get("custom_diff") or []):
+        if d is not None and not d <= 1e-8:
+            return ("custom-positional", f"{what}: operation {a}: matrix of the bound custom gate differs from the definition's matrix with "
+                                         f"the ordered symbols replaced by the (bound) arguments position by position (rel. diff {d})")
+    u = b.get("unitary") or {}
+    names = {"bind": "binding the map and evaluating", "total": "binding the map and the point at once (numeric evaluation)",
+             "step": "binding the map, then the point (numeric evaluation)"}
+    for key in ("bind", "total", "step"):
+        if u.get(key) is not None and not u[key] <= 1e-8:
+            return ("bind-unitary", f"{what}: circuit matrix obtained by {names[key]} differs from the symbolic circuit matrix with "
+                                    f"the same values substituted afterwards by {u[key]}")
+    if not all(b["untouched_ok"]):
+        return ("bind-touches-absent", f"{what}: a numeric parameter or a parameter without bound symbols was changed by bind")
+    if b.get("paths"):
+        return ("bind-paths-differ", f"{what}: {b['paths'][0]}")
+    return _check_free(what, b)
 
 
 def oracle(c, out):
@@ -803,80 +1276,110 @@ def oracle(c, out):
     res = _check_free("before bind", out["before"])
     if res:
         return res
-    kinds = out["kinds"]
+    if c["kind"] == "hist":
+        return _oracle_hist(c, out)
     b = out["bound"]
-    if "powexp" in kinds:
-        # the first exception wins; nothing before a power/exponential gate may raise, so it is the refusal
-        if b.get("err") != "err:notimpl":
-            return ("powexp-bind-not-refused", f"a power/exponential gate was bound: outcome {b.get('err', 'a circuit')} instead of NotImplementedError")
-        return None
-    if "err" in b:
-        if "reset" in kinds:
-            # regression of the defect fixed by ddf37fe (dataclasses.replace called ResetOperation(params=...))
-            return ("reset-bind-typeerror" if b["err"] == "err:type" else "reset-bind-raises",
-                    f"binding a circuit containing a ResetOperation raised {b['err']}; non-gate operations must bind like gates "
-                    f"(ResetOperation has no parameters, so the bound operation is a reset of the same qubit)")
-        return ("bind-raises", f"bind raised {b['err']} on a circuit of bindable operations")
-    if b["n"] != out["before"]["n"] or b["qubits"] != out["before"]["qubits"] or b["same_type"] is None or not all(b["same_type"]):
-        return ("bind-shape", f"bound circuit has width {b['n']} / qubits {b['qubits']}, original {out['before']['n']} / {out['before']['qubits']}")
-    for a, row in enumerate(b["param_diff"]):
-        if row == "len" or any(d is not None and d > TOL for d in row):
-            return ("bind-param-value", f"operation {a}: bound parameters {b['strs'][a]} differ from substituting afterwards (rel. diff {row})")
-    for a, d in enumerate(b["matrix_diff"]):
-        if d is not None and not d <= 1e-8:
-            return ("bind-matrix", f"operation {a}: matrix of the bound gate differs from the substituted symbolic matrix by {d}")
-    if b.get("unitary_diff") is not None and not b["unitary_diff"] <= 1e-8:
-        return ("bind-unitary", f"unitary of the bound circuit differs from the substituted symbolic unitary by {b['unitary_diff']}")
-    if not all(b["untouched_ok"]):
-        return ("bind-touches-absent", "a numeric parameter or a parameter without bound symbols was changed by bind")
-    res = _check_free("after bind", b)
-    if res:
+    res = _check_bound("bind", c, out, b, c["map"])
+    if res or "powexp" in out["kinds"]:
         return res
-    # what the bound parameters still depend on: unbound symbols + symbols of the substituted values
     if "extra_same" in out and (out["extra_same"] is False or not all(all(r) for r in out["extra_same"])):
         return ("bind-extra", "superfluous map entries changed the bound circuit")
     if "step" in out:
-        st, on = out["step"], out["once"]
-        if "err" in st or "err" in on:
-            return ("bind-step-raises", f"step-wise bind {st.get('err')} / bind once {on.get('err')}")
-        for key, o in (("step-wise", st), ("once", on)):
-            res = _check_free(key, o)
+        res = _check_steps(out["step"], out["once"])
+        if res:
+            return res
+    return _check_same("the circuit that was bound", out["before"], out["after"])
+
+
+def _check_steps(st, on, what=""):
+    if "err" in st or "err" in on:
+        return ("bind-step-raises", f"{what}step-wise bind {st.get('err')} / bind once {on.get('err')}")
+    for key, o in ((what + "step-wise", st), (what + "once", on)):
+        res = _check_free(key, o)
+        if res:
+            return res
+    if st["n"] != on["n"] or st["qubits"] != on["qubits"]:
+        return ("bind-step", f"{what}step-wise binding gives width {st['n']} / qubits {st['qubits']}, binding once {on['n']} / {on['qubits']}")
+    for k, (r1, r2) in enumerate(zip(st["vals"], on["vals"])):
+        for a, (o1, o2) in enumerate(zip(r1, r2)):
+            for p1, p2 in zip(o1, o2):
+                v1 = None if p1["v"] is None else complex(*p1["v"])
+                v2 = None if p2["v"] is None else complex(*p2["v"])
+                if v1 is not None and v2 is not None and not close(v1, v2):
+                    return ("bind-step", f"{what}operation {a}: step-wise {st['strs'][a]} differs from once {on['strs'][a]}")
+    return None
+
+
+def _oracle_hist(c, out):
+    for i, (ms, b) in enumerate(zip(c["maps"], out["binds"])):
+        what = f"bind #{i + 1} of {len(c['maps'])} on the same circuit object (map {ms})"
+        res = _check_bound(what, c, out, b, ms)
+        if res:
+            return res
+        if "again" in b:
+            res = _check_bound(what + ", asked again after editing the returned lists / matrices and the map that was passed", c, out, b["again"], ms)
             if res:
                 return res
-        if st["n"] != on["n"] or st["qubits"] != on["qubits"]:
-            return ("bind-step", f"step-wise binding gives width {st['n']} / qubits {st['qubits']}, binding once {on['n']} / {on['qubits']}")
-        for k, (r1, r2) in enumerate(zip(st["vals"], on["vals"])):
-            for a, (o1, o2) in enumerate(zip(r1, r2)):
-                for p1, p2 in zip(o1, o2):
-                    v1 = None if p1["v"] is None else complex(*p1["v"])
-                    v2 = None if p2["v"] is None else complex(*p2["v"])
-                    if v1 is not None and v2 is not None and not close(v1, v2):
-                        return ("bind-step", f"operation {a}: step-wise {st['strs'][a]} differs from once {on['strs'][a]}")
+            res = _check_same(what + ": the circuit that was bound, after editing what it handed out", out["before"], b["orig_again"])
+            if res:
+                return res
+    if "powexp" not in out["kinds"] and out.get("chain"):
+        for k, st in enumerate(out["chain"]):
+            if "err" in st:
+                return ("bind-step-raises", f"partial step {k + 1} raised {st['err']}")
+            res = _check_free(f"after partial step {k + 1}", st)
+            if res:
+                return res
+        res = _check_steps(out["chain"][-1], out["chain_once"], what=f"{len(out['chain'])} partial steps: ")
+        if res:
+            return res
+    return _check_same("the circuit that was bound", out["before"], out["after"])
+
+
+def _oracle_gate_bound(what, out, b, ms):
+    if out["powexp"]:
+        if b.get("err") != "err:notimpl":
+            return ("powexp-bind-not-refused", f"{what}: a power/exponential gate was bound: outcome {b.get('err', 'a gate')} instead of NotImplementedError")
+        return None
+    if "err" in b:
+        return ("bind-raises", f"{what}: Gate.bind raised {b['err']}")
+    if b["occ"] is not None:
+        for key, api in (("free", "bound gate"), ("free_op", "operation of the bound gate")):
+            if b[key] != sorted(set(b["occ"])):
+                return ("free-symbols-op", f"{what}: {api} reports {b[key]}, its parameters {b['strs']} depend on {b['occ']}")
+    pd = b.get("param_diff")
+    if pd == "len" or (pd and any(d is not None and d > TOL for d in pd)):
+        return ("bind-param-value", f"{what}: bound parameters {b['strs']} differ from substituting {ms} afterwards (rel. diff {pd})")
+    d = b.get("matrix_diff")
+    if d is not None and not d <= 1e-8:
+        return ("bind-matrix", f"{what}: matrix of the bound gate differs from the substituted symbolic matrix by {d}")
+    if "free_again" in b and b["occ"] is not None and (b["free_again"] != sorted(set(b["occ"])) or b["strs_again"] != b["strs"]):
+        return ("bind-aliases-map", f"{what}: after the map that was passed to bind has been edited the bound gate reports free symbols "
+                                    f"{b['free_again']} / parameters {b['strs_again']} (before: {b['free']} / {b['strs']})")
     return None
 
 
 def _oracle_gate(c, out):
     if out.get("construct"):
         return None  # the gate of the case cannot be built (e.g. power over free symbols): nothing to bind
-    if out["free"] != sorted(set(out["occ"])):
-        return ("free-symbols-op", f"gate reports free symbols {out['free']}, its parameters mention {out['occ']}")
+    if out["occ"] is not None and out["free"] != sorted(set(out["occ"])):
+        return ("free-symbols-op", f"gate reports free symbols {out['free']}, its parameters depend on {out['occ']}")
     if out.get("custom_diff") is not None and not out["custom_diff"] <= 1e-8:
         return ("custom-positional", f"custom gate matrix differs from the definition's matrix with the ordered symbols "
                                      f"replaced by the arguments position by position (rel. diff {out['custom_diff']})")
-    b = out["bound"]
-    if out["powexp"]:
-        if b.get("err") != "err:notimpl":
-            return ("powexp-bind-not-refused", f"a power/exponential gate was bound: outcome {b.get('err', 'a gate')} instead of NotImplementedError")
-        if out["free"]:
-            return ("powexp-free-symbols", f"a power/exponential gate has free symbols {out['free']}")
-    else:
-        if "err" in b:
-            return ("bind-raises", f"Gate.bind raised {b['err']}")
-        if b["free"] != sorted(set(b["occ"])):
-            return ("free-symbols-op", f"bound gate reports {b['free']}, its parameters {b['strs']} mention {b['occ']}")
-        d = b.get("matrix_diff")
-        if d is not None and not d <= 1e-8:
-            return ("bind-matrix", f"matrix of the bound gate differs from the substituted symbolic matrix by {d}")
+    if out["powexp"] and out["free"]:
+        return ("powexp-free-symbols", f"a power/exponential gate has free symbols {out['free']}")
+    res = _oracle_gate_bound("bind", out, out["bound"], c["map"])
+    if res:
+        return res
+    if "more" in out:
+        seq = list(c["more_maps"]) + [c["map"]]
+        for i, (ms, b) in enumerate(zip(seq, out["more"])):
+            res = _oracle_gate_bound(f"bind #{i + 2} of {len(seq) + 1} on the same gate object (map {ms})", out, b, ms)
+            if res:
+                return res
+        if out["free_after"] != out["free"]:
+            return ("history-changes-original", f"the gate that was bound reported free symbols {out['free']}, now {out['free_after']}")
     return None
 
 
@@ -960,7 +1463,7 @@ def _nq(gs):
     if gs["k"] == "mf":
         return NQ.get(gs["name"], 1)
     if gs["k"] == "custom":
-        return {2: 1, 4: 2}[len(CUSTOM[gs["name"]]["matrix"])]
+        return {2: 1, 4: 2}[len(_custom_spec(gs)[0])]
     return _nq(gs["g"]) + (gs["n"] if gs["k"] == "ctrl" else 0)
 
 
@@ -1080,7 +1583,7 @@ def gen_points(rng, names, n=2):
     return pts
 
 
-def gen_circuit_case(rng, big):
+def gen_circuit_case(rng, big, u3=True):
     poly = rng.random() < 0.5
     nsym = rng.choice([2, 3, 3, 4, 5])
     syms = rng.sample(SYMS, nsym)
@@ -1095,7 +1598,7 @@ def gen_circuit_case(rng, big):
             continue
         for _try_ in range(6):
             g = gen_gate(rng, syms, poly, max_q=width)
-            if _nq(g) <= width:
+            if _nq(g) <= width and (u3 or _base_spec(g).get("name") != "U3"):
                 break
         else:
             g = {"k": "mf", "name": "RX", "params": [gen_param(rng, syms, poly)]}
@@ -1134,6 +1637,310 @@ def gen_gate_case(rng, big):
         sym = False if (powexp and rng.random() < 0.7) else None
         c["new_params"] = [gen_param(rng, syms, poly, sym) for _ in range(rng.choice([npar, npar, npar, npar + 1, max(0, npar - 1)]))]
     c["pts"] = gen_points(rng, SYMS)
+    if rng.random() < 0.3 and _base_spec(g).get("name") != "U3":
+        # a history on the same gate object: sibling maps, then the first map once more
+        sibs = [gen_sibling(rng, c["map"], used or syms[:1], [c["map"]])]
+        if rng.random() < 0.4:
+            sibs.append(gen_sibling(rng, sibs[0], used or syms[:1], [c["map"]] + sibs))
+        c["more_maps"] = sibs
+    return c
+
+
+# ---------------------------------------------------------------- new case kinds (classes of history / shape dependent behaviour)
+NUMVALS = ["1", "2", "-1", "3", "0", "1/2", "3/4", "-3/2", "1/8", "5/4"]
+
+
+def _numeric_value(rng, poly=False):
+    if rng.random() < 0.55:
+        return {"py": rng.choice(NUMVALS[:5] if poly else NUMVALS)}
+    return {"e": rng.choice(["1/2", "2/3", "-3/4", "5", "7/5", "-2", "1/3"])}
+
+
+def _maps_value_syms(maps):
+    out = set()
+    for m in maps:
+        for _, v in m:
+            if "e" in v:
+                out |= set(_idents(v["e"]))
+    return out
+
+
+def gen_sibling(rng, m, used, maps, poly=False):
+    """a map that differs from m in exactly one component (one value changed / one entry dropped / one entry added /
+    one value replaced by an equal number of another type); values are numeric, so no value mentions a key"""
+    m = [[k, dict(v)] for k, v in m]
+    mentioned = _maps_value_syms(maps + [m])
+    keys = {k for k, _ in m}
+    addable = [s for s in list(used) + [s for s in SYMS if s not in used][:2] if s not in keys and s not in mentioned]
+    how = rng.choice(["value", "value", "value", "drop", "add", "retype"])
+    if how in ("value", "retype", "drop") and not m:
+        how = "add"
+    if how == "add" and not addable:
+        how = "value" if m else None
+    if how is None:
+        return m
+    if how == "value":
+        i = rng.randrange(len(m))
+        old = m[i][1]
+        for _ in range(8):
+            new = _numeric_value(rng, poly)
+            if new != old:
+                break
+        m[i][1] = new
+    elif how == "retype":
+        i = rng.randrange(len(m))
+        v = m[i][1]
+        m[i][1] = {"e": v["py"]} if "py" in v else ({"py": v["e"]} if re.fullmatch(r"-?\d+(/\d+)?", v["e"]) else _numeric_value(rng, poly))
+    elif how == "drop":
+        m.pop(rng.randrange(len(m)))
+    else:
+        m.insert(rng.randrange(len(m) + 1), [rng.choice(addable), _numeric_value(rng, poly)])
+    return m
+
+
+def gen_hist_case(rng, big):
+    base = gen_circuit_case(rng, big, u3=False)
+    used = _case_syms(base)
+    m1 = base["map"]
+    maps = [m1]
+    for _ in range(rng.choice([1, 1, 2])):
+        maps.append(gen_sibling(rng, maps[-1] if rng.random() < 0.5 else m1, used, maps))
+    maps.append([[k, dict(v)] for k, v in m1])          # the first question once more
+    c = {"kind": "hist", "ops": base["ops"], "n": base["n"], "maps": maps, "pts": base["pts"],
+         "poison": rng.random() < 0.6, "unitary": base["unitary"]}
+    if rng.random() < 0.5:
+        # the same symbols bound one (or two) at a time on the results, numeric values only
+        keys = [s for s in used if s not in _maps_value_syms(maps)]
+        rng.shuffle(keys)
+        keys = keys[:rng.choice([2, 3])]
+        if keys:
+            steps, i = [], 0
+            while i < len(keys):
+                n = rng.choice([1, 1, 2])
+                steps.append([[k, _numeric_value(rng)] for k in keys[i:i + n]])
+                i += n
+            c["chain"] = steps
+    return c
+
+
+MIX1 = ["RX", "RY", "RZ", "RH", "PHASE", "GPi", "GPi2"]
+MIX2 = ["CPHASE", "XX", "YY", "ZZ", "XY"]
+MIXF1 = ["H", "X", "Y", "S", "T", "SX", "Z"]
+MIXF2 = ["CNOT", "SWAP", "ISWAP", "CZ"]
+
+
+def gen_mixed_case(rng, big):
+    """circuits whose operations are a MIX of numeric and symbolic gates – before binding (Python-number parameters,
+    parameter-free gates) and after it (partial maps that turn runs of neighbouring gates numeric) – on few qubits with
+    many non-commuting neighbours; the circuit matrix is evaluated along every route (symbolic, mixed, numeric)"""
+    width = rng.choice([1, 1, 2, 2, 2, 3]) if big else rng.choice([1, 1, 2, 2, 2])
+    syms = rng.sample(SYMS, rng.choice([2, 3, 3, 4]))
+    nops = rng.choice([3, 4, 5, 6]) if big else rng.choice([3, 4, 4, 5])
+    ops = []
+    for _ in range(nops):
+        two = width >= 2 and rng.random() < 0.35
+        r = rng.random()
+        if r < 0.25:
+            g = {"k": "mf", "name": rng.choice(MIXF2 if two else MIXF1), "params": []}
+        else:
+            k = rng.random()
+            if k < 0.25:
+                p = {"py": rng.choice(["1", "1/2", "3/4", "-3/2", "5/8", "2"])}
+            elif k < 0.7:
+                p = {"e": rng.choice(syms)}
+            else:
+                p = {"e": f"{_num_str(rng)}*{rng.choice(syms)} + {rng.choice(syms + [_num_str(rng)])}"}
+            g = {"k": "mf", "name": rng.choice(MIX2 if two else MIX1), "params": [p]}
+        if rng.random() < 0.15:
+            g = {"k": "dag", "g": g, "raw": rng.random() < 0.3}
+        if rng.random() < 0.15 and _nq(g) + 1 <= width:
+            g = {"k": "ctrl", "g": g, "n": 1, "raw": rng.random() < 0.3}
+        ops.append({"op": "gate", "g": g, "q": rng.sample(range(width), _nq(g))})
+    c = {"kind": "mixed", "ops": ops, "n": rng.choice([None, None, width, width + 1 if width < 3 else width])}
+    used = _case_syms(c)
+    # keep some symbols free, bind the others (mostly to numbers)
+    keys = [s for s in used if rng.random() < 0.6]
+    if used and len(keys) == len(used) and rng.random() < 0.8:
+        keys.remove(rng.choice(keys))
+    if used and not keys and rng.random() < 0.8:
+        keys = [rng.choice(used)]
+    free_for_values = [s for s in SYMS if s not in keys]
+    c["map"] = [[k, _numeric_value(rng) if rng.random() < 0.85 else {"e": rng.choice(free_for_values)}] for k in keys]
+    if rng.random() < 0.3:
+        rest = [s for s in used if s not in keys and s not in _maps_value_syms([c["map"]])]
+        if rest:
+            c["map2"] = [[k, _numeric_value(rng)] for k in rest if rng.random() < 0.7]
+    c["pts"] = gen_points(rng, SYMS)
+    c["unitary"] = True
+    return c
+
+
+BINDERS = ["Sum({b}*{s}, ({b}, 1, 3))", "Sum({s}**{b}, ({b}, 0, 2))", "Product({b} + {s}, ({b}, 1, 2))",
+           "Integral({b}*{s}, ({b}, 0, 1))", "Integral({b}*{s} + {s2}, ({b}, 0, {s3}))",
+           "{s2}*Sum({b}*{s}, ({b}, 1, 2)) + {s3}", "Sum({b} + {s}, ({b}, 1, 2))/2 - {s2}",
+           "Integral({s}*cos({b}), ({b}, 0, {s2}))"]
+REALFUNCS = ["tan({s}/8)", "log({s}**2 + 1)", "Abs({s} - {s2})", "sqrt({s}**2 + {s2}**2 + 1)", "atan({s}*{s2})", "sinh({s}/4)",
+             "Max({s}, {s2})", "Piecewise(({s}, {s2} > 0), (-{s}, True))", "sign({s})*{s2}", "floor({s}) + {s2}"]
+SYMPYNUMS = ["pi/3", "E", "2*pi", "sqrt(2)", "1/3", "0.25", "0", "-pi", "GoldenRatio"]
+PYNUMS = [["fraction", "3/4"], ["fraction", "-5/2"], ["complex", "1/2"], ["npfloat", "3/8"], ["npint", "2"],
+          ["bigint", "100000000000000000000"], ["float", "-0.0"], ["float", "1e-12"], ["bigint", "-1000000"]]
+BOUNDVARS = ["k", "j"]
+
+
+FLAVOURS = ["binder", "many", "func", "assume", "shared", "values", "binder", "sympynum", "pynum", "samename", "binder", "many",
+            "func", "assume", "shared", "values", "binder", "many", "binder", "sympynum", "pynum", "samename", "func", "assume",
+            "shared", "values", "binder", "many"]
+
+
+def gen_exotic_case(rng, big, flavour=None):
+    """legal but unusual inputs: parameters with BOUND variables (Sum / Product / Integral – the bound variable may share
+    its name with a free symbol of the circuit or with a key of the map), other real functions, sympy numbers, Python
+    numbers of unusual types, symbols with assumptions, the same operation object / the same symbol many times, custom
+    definitions with the same name and different content, very small values / values of unusual types"""
+    flavour = flavour or rng.choice(FLAVOURS)
+    if flavour == "many":
+        # sizes beyond every small threshold: 9-14 distinct symbols, 10-18 operations, register of 9-12 qubits, a
+        # MultiPhaseOperation on 3-4 qubits (the circuit matrix is not formed)
+        syms = rng.sample(SYMS, rng.choice([9, 10, 12, 14]))
+        width = rng.choice([9, 10, 12])
+        ops = []
+        order = list(syms)
+        rng.shuffle(order)
+        for i in range(rng.choice([10, 12, 14, 18])):
+            s1 = order[i % len(order)]
+            r = rng.random()
+            p = {"e": s1} if r < 0.5 else {"e": f"{_num_str(rng)}*{s1} + {rng.choice(syms)}"} if r < 0.85 else {"py": rng.choice(NUMVALS)}
+            if rng.random() < 0.1:
+                ops.append({"op": "mp", "params": [p] + [gen_param(rng, syms, poly=True) for _ in range(2 ** rng.choice([3, 4]) - 1)]})
+                continue
+            two = rng.random() < 0.3
+            g = {"k": "mf", "name": rng.choice(MIX2 if two else MIX1), "params": [p]}
+            if rng.random() < 0.2:
+                g = {"k": "ctrl", "g": g, "n": 1, "raw": rng.random() < 0.3}
+            ops.append({"op": "gate", "g": g, "q": rng.sample(range(width), _nq(g))})
+        c = {"kind": "exotic", "flavour": flavour, "ops": ops, "n": rng.choice([None, width + 1, width + 1, width + 2])}
+        used = _case_syms(c)
+        style = rng.choice(["total", "partial", "late", "late"])
+        keys = list(used) if style == "total" else [s for s in used if rng.random() < 0.6]
+        if style == "late":
+            keys = used[-3:] if rng.random() < 0.5 else [s for s in order[8:] if s in used]   # only symbols that appear late
+        rng.shuffle(keys)
+        free_for_values = [s for s in SYMS if s not in keys]
+        c["map"] = [[k, _numeric_value(rng) if rng.random() < 0.85 or not free_for_values else {"e": rng.choice(free_for_values)}] for k in keys]
+        rest = [s for s in used if s not in keys and s not in _maps_value_syms([c["map"]])]
+        if rest and rng.random() < 0.5:
+            c["map2"] = [[k, _numeric_value(rng)] for k in rest if rng.random() < 0.7]
+        c["pts"] = gen_points(rng, SYMS)
+        c["unitary"] = False
+        c["matrix"] = rng.random() < 0.3
+        return c
+    if flavour == "assume":
+        c = gen_circuit_case(rng, big)
+        used = _case_syms(c)
+        c["assume"] = {s: "real" for s in used if rng.random() < 0.7}
+        c["kind"] = "exotic"
+        c["flavour"] = flavour
+        return c
+    if flavour == "shared":
+        c = gen_circuit_case(rng, big, u3=False)
+        for _ in range(rng.choice([1, 2])):
+            i = rng.randrange(len(c["ops"]))
+            dup = dict(c["ops"][i])
+            dup["same_as"] = i if "same_as" not in dup else dup["same_as"]
+            c["ops"].insert(rng.randrange(i + 1, len(c["ops"]) + 1), dup)
+        c["kind"] = "exotic"
+        c["flavour"] = flavour
+        return c
+    if flavour == "samename":
+        syms = rng.sample(SYMS, 3)
+        ops = []
+        names = rng.sample(["U1", "U2", "U4"], 2)
+        alias = {"k": "custom", "name": names[0], "matrix": CUSTOM[names[1]]["matrix"], "ord": CUSTOM[names[1]]["ord"]}
+        for which in rng.sample([0, 1, 0, 1], rng.choice([2, 3, 4])):
+            if which == 0:
+                g = {"k": "custom", "name": names[0], "params": [gen_param(rng, syms) for _ in CUSTOM[names[0]]["ord"]]}
+            else:
+                g = dict(alias, params=[gen_param(rng, syms) for _ in alias["ord"]])
+            if rng.random() < 0.3:
+                g = {"k": "dag", "g": g}
+            ops.append({"op": "gate", "g": g, "q": [rng.randrange(2)]})
+        c = {"kind": "exotic", "flavour": flavour, "ops": ops, "n": 2}
+        used = _case_syms(c)
+        m, m2, extra = gen_maps(rng, used, False, True, _case_groups(c))
+        c["map"] = m + extra
+        if m2 is not None:
+            c["map2"] = m2
+        c["pts"] = gen_points(rng, SYMS)
+        c["unitary"] = rng.random() < 0.3
+        return c
+    syms = rng.sample(SYMS, rng.choice([2, 3, 4]))
+    width = rng.choice([1, 2, 2])
+    shadow = None
+
+    def special():
+        nonlocal shadow
+        if flavour == "binder":
+            b = rng.choice(BOUNDVARS) if rng.random() < 0.6 else rng.choice(syms)
+            if b in syms:
+                shadow = b
+            rest = [s for s in syms if s != b] or ["x" if b != "x" else "y"]
+            return {"e": rng.choice(BINDERS).format(b=b, s=rng.choice(rest), s2=rng.choice(rest), s3=rng.choice(rest))}
+        if flavour == "func":
+            s, s2 = rng.choice(syms), rng.choice(syms)
+            return {"e": rng.choice(REALFUNCS).format(s=s, s2=s2)}
+        if flavour == "sympynum":
+            return {"e": rng.choice(SYMPYNUMS)}
+        if flavour == "pynum":
+            return {"num": rng.choice(PYNUMS)}
+        return gen_param(rng, syms, poly=True)
+
+    ops = []
+    for i in range(rng.choice([2, 3, 3, 4])):
+        p = special() if (i == 0 or rng.random() < 0.5) else gen_param(rng, syms, poly=True)
+        if rng.random() < 0.15:
+            n = rng.choice([1, 2]) if width >= 2 else 1
+            ops.append({"op": "mp", "params": [p] + [gen_param(rng, syms, poly=True) for _ in range(2 ** n - 1)]})
+            continue
+        two = width >= 2 and rng.random() < 0.3
+        g = {"k": "mf", "name": rng.choice(MIX2 if two else MIX1), "params": [p]}
+        if rng.random() < 0.25:
+            g = {"k": "dag", "g": g}
+        if rng.random() < 0.2 and _nq(g) + 1 <= width:
+            g = {"k": "ctrl", "g": g, "n": 1}
+        ops.append({"op": "gate", "g": g, "q": rng.sample(range(width), _nq(g))})
+    c = {"kind": "exotic", "flavour": flavour, "ops": ops, "n": rng.choice([None, width, width + 1])}
+    used = [s for s in _case_syms(c) if s in SYMS or s in BOUNDVARS]
+    style = rng.choice(["partial", "partial", "total", "empty"])
+    keys = [] if style == "empty" else [s for s in used if style == "total" or rng.random() < 0.5]
+    if flavour == "binder" and rng.random() < 0.5:
+        # the name of a bound variable as a key of the map: superfluous unless the symbol also occurs free
+        bv = [b for b in BOUNDVARS + ([shadow] if shadow else []) if b in _case_syms(c)]
+        keys += [b for b in bv if b not in keys]
+    rng.shuffle(keys)
+    forbidden = set(keys) | set(BOUNDVARS) | ({shadow} if shadow else set())
+    free_for_values = [s for s in SYMS if s not in forbidden]
+
+    def value():
+        if flavour == "values" and rng.random() < 0.7:
+            # (no huge values: the library's matrix factories multiply the angle by Python floats, so exp(1j*theta) of a
+            #  theta ~ 1e30 is rounding noise along every route – a comparison would not be sound)
+            return rng.choice([{"num": ["float", "1e-12"]}, {"num": ["float", "-0.0"]}, {"num": ["fraction", "7/3"]}, {"e": "pi"},
+                               {"e": "1/1000000007"}, {"num": ["fraction", "-1/3"]}, {"e": "-E"}, {"num": ["bigint", "-7"]}])
+        if flavour == "values":
+            return {"e": rng.choice(["1/2", "2/3", "-3/4", "5", "7/5", "-2", "1/3"])}   # exact: no float next to 10**30
+        if rng.random() < 0.75:
+            return _numeric_value(rng)
+        return {"e": rng.choice(free_for_values)}
+
+    c["map"] = [[k, value()] for k in keys]
+    if rng.random() < 0.4:
+        rest = [s for s in used if s not in keys and s not in _maps_value_syms([c["map"]])]
+        c["map2"] = [[k, _numeric_value(rng)] for k in rest if rng.random() < 0.7]
+    c["pts"] = gen_points(rng, SYMS)
+    if flavour == "pynum":
+        c["matrix"] = False      # sympy 1.9 cannot sympify numpy-2 scalars: only the binding mechanisms are observed
+    else:
+        c["unitary"] = width <= 2 and rng.random() < 0.35
     return c
 
 
@@ -1179,15 +1986,60 @@ def corpus():
         {"kind": "gate", "g": {"k": "custom", "name": "U2", "params": [{"e": "x"}]}, "map": [["x", {"py": "3"}], ["theta", {"py": "1"}]], "pts": pts},
         # empty circuit
         {"kind": "circuit", "ops": [], "n": None, "map": [["x", {"py": "1"}]], "pts": pts},
+        # --- classes of subtle changes (history / special shapes / exotic inputs)
+        # bound variables: k is bound in the Sum, x is bound in the second Sum and free in RY(x); the map names both
+        {"kind": "exotic", "flavour": "binder", "n": 2, "pts": pts, "unitary": True,
+         "ops": [{"op": "gate", "g": {"k": "mf", "name": "RX", "params": [{"e": "Sum(k*y, (k, 1, 3))"}]}, "q": [0]},
+                 {"op": "gate", "g": {"k": "ctrl", "n": 1, "g": {"k": "mf", "name": "RZ", "params": [{"e": "Sum(x*z, (x, 1, 2)) + y"}]}}, "q": [1, 0]},
+                 {"op": "gate", "g": {"k": "mf", "name": "RY", "params": [{"e": "x"}]}, "q": [1]}],
+         "map": [["y", {"py": "1/2"}], ["k", {"py": "5"}], ["x", {"e": "2/3"}]], "map2": [["z", {"py": "2"}]]},
+        {"kind": "exotic", "flavour": "binder", "n": None, "pts": pts,
+         "ops": [{"op": "mp", "params": [{"e": "Integral(t*y, (t, 0, 1))"}, {"py": "1/2"}]},
+                 {"op": "gate", "g": {"k": "dag", "g": {"k": "mf", "name": "PHASE", "params": [{"e": "Product(j + x, (j, 1, 2))"}]}}, "q": [0]}],
+         "map": [["x", {"py": "1"}], ["y", {"e": "3/4"}]]},
+        # mixed numeric / symbolic circuit after a partial binding: two neighbouring non-commuting numeric gates
+        {"kind": "mixed", "n": None, "pts": pts, "unitary": True,
+         "ops": [{"op": "gate", "g": {"k": "mf", "name": "RX", "params": [{"e": "x"}]}, "q": [0]},
+                 {"op": "gate", "g": {"k": "mf", "name": "RY", "params": [{"e": "y"}]}, "q": [0]},
+                 {"op": "gate", "g": {"k": "mf", "name": "RZ", "params": [{"e": "z"}]}, "q": [0]}],
+         "map": [["x", {"py": "1/2"}], ["y", {"py": "3/4"}]]},
+        {"kind": "mixed", "n": 3, "pts": pts, "unitary": True,
+         "ops": [{"op": "gate", "g": {"k": "mf", "name": "H", "params": []}, "q": [1]},
+                 {"op": "gate", "g": {"k": "mf", "name": "RY", "params": [{"py": "3/4"}]}, "q": [1]},
+                 {"op": "gate", "g": {"k": "mf", "name": "XX", "params": [{"e": "2*x + y"}]}, "q": [1, 0]},
+                 {"op": "gate", "g": {"k": "mf", "name": "RX", "params": [{"e": "y"}]}, "q": [0]},
+                 {"op": "gate", "g": {"k": "mf", "name": "CNOT", "params": []}, "q": [0, 1]}],
+         "map": [["y", {"e": "1/3"}]], "map2": [["x", {"py": "2"}]]},
+        # history on one circuit object: sibling maps, the first one again, edits of everything handed out, partial steps
+        {"kind": "hist", "n": 2, "pts": pts, "poison": True, "unitary": True,
+         "ops": [{"op": "gate", "g": {"k": "mf", "name": "RX", "params": [{"e": "2*x"}]}, "q": [0]},
+                 {"op": "gate", "g": {"k": "mf", "name": "RY", "params": [{"e": "x + y"}]}, "q": [0]},
+                 {"op": "mp", "params": [{"e": "z"}, {"e": "x"}]}],
+         "maps": [[["x", {"py": "1"}]], [["x", {"py": "2"}]], [["x", {"py": "2"}], ["z", {"e": "1/2"}]], [["x", {"py": "1"}]]],
+         "chain": [[["x", {"py": "1"}]], [["y", {"py": "2"}], ["z", {"e": "3"}]]]},
+        # history on one gate object
+        {"kind": "gate", "g": {"k": "ctrl", "n": 1, "g": {"k": "mf", "name": "RX", "params": [{"e": "2*x*y + 1"}]}},
+         "map": [["x", {"py": "1/2"}]], "more_maps": [[["x", {"py": "3/4"}]], [["x", {"py": "3/4"}], ["y", {"e": "z"}]]], "pts": pts},
+        # the very same operation object twice; the same custom-gate name with two different contents
+        {"kind": "exotic", "flavour": "shared", "n": None, "pts": pts, "unitary": True,
+         "ops": [{"op": "gate", "g": rx, "q": [0]}, {"op": "gate", "g": {"k": "mf", "name": "RY", "params": [{"e": "y"}]}, "q": [0]},
+                 {"op": "gate", "g": rx, "q": [0], "same_as": 0}],
+         "map": [["y", {"py": "1/2"}]]},
+        {"kind": "exotic", "flavour": "samename", "n": 2, "pts": pts,
+         "ops": [{"op": "gate", "g": {"k": "custom", "name": "U1", "params": [{"e": "x + y"}]}, "q": [0]},
+                 {"op": "gate", "g": {"k": "custom", "name": "U1", "matrix": CUSTOM["U4"]["matrix"], "ord": CUSTOM["U4"]["ord"],
+                                      "params": [{"e": "y"}, {"e": "x"}, {"py": "2"}]}, "q": [1]}],
+         "map": [["x", {"py": "3"}]], "map2": [["y", {"e": "1/2"}]]},
     ]
 
 
 def generate(rng, tier):
     big = tier == "thorough"
     cases = []
-    for _ in range(450 if big else 70):
-        cases.append(gen_circuit_case(rng, big))
-    for _ in range(400 if big else 60):
+    for _ in range(450 if big else 44):
+        # u3_matrix calls simplify() (0.4 s per evaluation): fewer of them in the quick tier
+        cases.append(gen_circuit_case(rng, big, u3=big or rng.random() < 0.4))
+    for _ in range(400 if big else 44):
         cases.append(gen_gate_case(rng, big))
     # circuits with a ResetOperation (regression of ddf37fe) and with a power / exponential gate in the middle
     for _ in range(30 if big else 6):
@@ -1209,11 +2061,28 @@ def generate(rng, tier):
             c["map"][0][1] = {"e": rng.choice(["pi/3", "2*pi", "sqrt(2)", "pi/5", "E"])}
         c["model"] = False
         cases.append(c)
+    # classes of subtle changes: mixed numeric/symbolic circuits, histories on one object, exotic but legal inputs
+    for _ in range(70 if big else 12):
+        cases.append(gen_mixed_case(rng, big))
+    for _ in range(60 if big else 12):
+        cases.append(gen_hist_case(rng, big))
+    for i in range(140 if big else 28):
+        cases.append(gen_exotic_case(rng, big, FLAVOURS[i % len(FLAVOURS)]))
     return cases
 
 
+def _all_maps(c):
+    return [c["map"]] if "map" in c else list(c.get("maps") or [])
+
+
 def nontrivial(c):
-    keys = {k for k, _ in c["map"]}
+    for m in _all_maps(c):
+        if _nontrivial_for(c, {k for k, _ in m}):
+            return True
+    return False
+
+
+def _nontrivial_for(c, keys):
     found = []
 
     def walk(j):
@@ -1234,7 +2103,8 @@ def nontrivial(c):
 
 def distribution(cases, outs):
     d = {"circuits": 0, "gates": 0, "ops": 0, "op_kinds": {}, "wrappers": {}, "bind_outcomes": {}, "maps": {"empty": 0, "symbolic_value": 0, "two_step": 0, "extra": 0},
-         "unitary_checked": 0, "matrix_checked": 0, "model_skipped": 0, "max_width": 0}
+         "unitary_checked": 0, "unitary_routes": {"symbolic": 0, "numeric": 0}, "matrix_checked": 0, "model_skipped": 0, "max_width": 0,
+         "kinds": {}, "history": {"binds": 0, "poisoned": 0, "chains": 0}}
 
     def wr(g):
         while "g" in g:
@@ -1255,9 +2125,16 @@ def distribution(cases, outs):
                     wr(op["g"])
                 else:
                     d["op_kinds"][op["op"]] = d["op_kinds"].get(op["op"], 0) + 1
-        if not c["map"]:
+        key = c["kind"] + (":" + c["flavour"] if c.get("flavour") else "") + ("+history" if c.get("more_maps") else "")
+        d["kinds"][key] = d["kinds"].get(key, 0) + 1
+        if c["kind"] == "hist":
+            d["history"]["binds"] += len(c["maps"])
+            d["history"]["poisoned"] += 1 if c.get("poison") else 0
+            d["history"]["chains"] += 1 if c.get("chain") else 0
+        maps = _all_maps(c)
+        if any(not m for m in maps):
             d["maps"]["empty"] += 1
-        if any("e" in v and _idents(v["e"]) for _, v in c["map"]):
+        if any("e" in v and _idents(v["e"]) for m in maps for _, v in m):
             d["maps"]["symbolic_value"] += 1
         if c.get("map2") is not None:
             d["maps"]["two_step"] += 1
@@ -1266,13 +2143,16 @@ def distribution(cases, outs):
         if not c.get("model", True):
             d["model_skipped"] += 1
         if isinstance(o, dict):
-            b = o.get("bound") or {}
-            key = o.get("construct") and "construct:" + o["construct"] or b.get("err", "ok")
-            d["bind_outcomes"][key] = d["bind_outcomes"].get(key, 0) + 1
-            if b.get("unitary_diff") is not None:
-                d["unitary_checked"] += 1
-            md = b.get("matrix_diff")
-            d["matrix_checked"] += sum(1 for x in md if x is not None) if isinstance(md, list) else (1 if md is not None else 0)
+            for b in ([o["bound"]] if o.get("bound") else []) + list(o.get("binds") or []) + list(o.get("more") or []):
+                key = b.get("err", "ok")
+                d["bind_outcomes"][key] = d["bind_outcomes"].get(key, 0) + 1
+                if b.get("unitary_diff") is not None:
+                    d["unitary_checked"] += 1
+                    d["unitary_routes"]["symbolic" if b["unitary"].get("symbolic_route") else "numeric"] += 1
+                md = b.get("matrix_diff")
+                d["matrix_checked"] += sum(1 for x in md if x is not None) if isinstance(md, list) else (1 if md is not None else 0)
+            if o.get("construct"):
+                d["bind_outcomes"]["construct:" + o["construct"]] = d["bind_outcomes"].get("construct:" + o["construct"], 0) + 1
             if "before" in o:
                 d["max_width"] = max(d["max_width"], o["before"]["n"])
     return d
